@@ -132,6 +132,8 @@ def run(run):
             observers(run, F, E)
             facts.drop(F)
             cfgmod.clear_cache()
+    from gen import static_units
+    static_units.must_not_compile(run, 'C01.c')
     run.floor('C01.a', 200)
     run.floor('C01.b', 60)
     run.floor('C01.c', 20)
